@@ -51,6 +51,8 @@ def overriding_subclasses(
     """
     Helper function to retreive the subclasses that override the given name from the parent class object. 
     """
+    if model.is_class_private_name(name):
+        return
     if not firstcall and name in classobj.contents:
         yield classobj
     else:
@@ -83,6 +85,7 @@ def unmasked_attrs(baselist: Sequence[model.Class]) -> Sequence[model.Documentab
         o.name
         for b in baselist[1:]
         for o in b.contents.values()
+        if not model.is_class_private_name(o.name)
         }
     return [o for o in baselist[0].contents.values()
             if o.isVisible and o.name not in maybe_masking]
